@@ -705,7 +705,16 @@ func (g *gstate) randomCase(n int) {
 				g.histAge[c.group] = 0
 			}
 			g.t.Count("msg:" + msgKey(m, c))
+			// a token request whose rewrite of the token file fails (C16: a refused update has no effect)
+			faulty := (strings.Contains(m, "k=edittoken") || strings.Contains(m, "k=maketoken")) && r.Intn(3) == 0
+			if faulty {
+				g.t.Count("fault:token-file")
+				g.do("fault 1")
+			}
 			res := g.do(fmt.Sprintf("m %d %s", i, m))
+			if faulty {
+				g.do("fault 0")
+			}
 			g.note(i, m, res)
 		}
 		g.schedule(style)
@@ -921,6 +930,13 @@ func (g *gstate) directed(k int) {
 		}
 		g.script("q", "m 1 t=groupaction k=unrecord", "m 0 t=groupaction k=unrecord", "q",
 			"m 0 t=useraction k=identify dst="+disk, "m 0 t=groupaction k=record", "q", "m 0 t=join k=leave g=g1", "q", "probe")
+	case 11: // C16: an edit whose rewrite of the token file fails is refused and must not take effect, now or later
+		g.script("group g1 u=alice:pw:op w=*:message", "tok tk1 g1 % present+message "+common.Pick(r, "P", "F")+" -",
+			"tok tk2 g1 % message F -", "client 0 c0", "client 1 c1",
+			"m 0 t=join k=join g=g1 u=alice pw=pw", "q", "fault 1",
+			"m 0 t=groupaction k=edittoken v=m.token~s.tk1!expires~i."+common.Pick(r, "-3600000", "7200000"), "fault 0",
+			"m 0 t=groupaction k=listtokens", "m 0 t=groupaction k=edittoken v=m.token~s.tk2!expires~i.7200000",
+			"m 0 t=groupaction k=listtokens", "m 1 t=join k=join g=g1 tok=tk1 u=tim", "q", "probe")
 	case 10: // events of the group a client has just left must not reach it in its new group
 		g.script("group g1 u=alice:pw:op u=bob:pw:present w=*:message", "group g2 u=alice:pw:op u=dan:pw:present w=*:message",
 			"client 0 c0", "client 1 c1", "client 2 c2",
@@ -960,7 +976,7 @@ func gen(t *common.Trace, e common.Engine, r *common.Rng, thorough bool) {
 		t.Case(fmt.Sprint(n))
 		e.Reset()
 		if r.Intn(100) < 12 {
-			k := r.Intn(11)
+			k := r.Intn(12)
 			t.Count(fmt.Sprintf("directed:%d", k))
 			g.directed(k)
 		} else {
